@@ -95,11 +95,11 @@ class _ScriptedSelector:
         return [object()] if a else []
 
 
-def device_replayer(method, dev, start_heaps, scripts, seg_of):
+def device_replayer(method, dev, start_heaps, scripts, seg_of, cat_of=None):
     """start_heaps: [(exit-set or None, heap)] the state a native run starts from for the exits of that segment (function entry, or the head
     of the contracted loop);  scripts: {segment index: [("read", again, chunk, oserror) | ("select", ready)]} in program order"""
     def rp(model, obl, cover):
-        if cover: return None
+        if cover and (obl.exit is None or cat_of is None): return None
         from gscrib.printrun.device import Device
         seg = seg_of(obl)
         heap = start_heaps[seg][1]
@@ -131,6 +131,21 @@ def device_replayer(method, dev, start_heaps, scripts, seg_of):
         info = {"call": f"Device.{method}() with _read_buffer={chunks!r}, scripted socket {[(k, v) for k, v in reads]!r}, selector {sels!r}"
                         + ("  [state at the head of the contracted loop]" if seg else ""),
                 "socket_calls": sock.calls, "observed": [out[0], repr(out[1]) if out[0] == "return" else f"{out[1]}: {out[2]}"], "buffer_after": repr(d._read_buffer)}
+        if cover:
+            # engine self-check: the real outcome on the model of this exit must be the symbolic exit (kind, result bytes, buffer content, connection flag)
+            e = obl.exit; dis = []
+            if out[0] != e.kind: dis.append(f"outcome: symbolic {e.kind} real {out[0]}")
+            elif e.kind == "raise":
+                if out[1] != e.payload: dis.append(f"exception: symbolic {e.payload} real {out[1]}")
+            else:
+                exp = vc.concretize(model, e.payload, e.heap)
+                expb = None if exp is None else (exp.encode("latin-1", "replace") if isinstance(exp, str) else exp)
+                if expb != out[1]: dis.append(f"result: symbolic {expb!r} real {out[1]!r}")
+            expbuf = vc.zstr_py(vc.mval(model, cat_of(e.heap)).as_string()).encode("latin-1", "replace")
+            if expbuf != b"".join(d._read_buffer): dis.append(f"buffer: symbolic {expbuf!r} real {b''.join(d._read_buffer)!r}")
+            if vc.c_bool(model, e.heap[dev.oid]["_is_connected"].t) != bool(d._is_connected): dis.append("connection flag differs")
+            info.update(agrees=not dis, detail="; ".join(dis), symbolic_exit=f"{e.kind}@{e.where}")
+            return info
         bad = []
         total = B0 + sock.received
         if out[0] == "raise":
